@@ -90,6 +90,10 @@ def run_case(case, ctx):
     try:
         for s in case["init"]:
             w.fs_step(s)
+        if trig in ("all_missing", "all_rewritten") and case["b"] % 2 == 0:
+            # the disk also holds a recorded empty directory, which stays in place when all its files go
+            w.fs_step({"op": "mkdir", "disk": case["a"] % cfg["ndisks"], "name": "spool%d/inner" % (case["b"] % 7)})
+            classes.add("disk keeps a recorded empty directory")
         r = w.cmd("sync")
         if r.rc != 0:
             return Outcome(ok=True, classes=["base sync refused"])
